@@ -75,7 +75,7 @@ def sem(kind, v):
     return v
 
 
-def plan(tier, seed):
+def _plan(tier, seed):
     shards = []
     for kind, parts in (('num', 6), ('text', 3), ('date', 2)):
         for p in range(parts):
@@ -392,6 +392,9 @@ def run_isodates(shard, ctx):
 
 
 def run_shard(shard, ctx):
+    if isinstance(shard, dict) and 'mixed' in shard:
+        from ..mixed import run_mixed
+        return run_mixed(ctx, ID, shard['n'])
     if shard.get('supply') == 'isodates':
         return run_isodates(shard, ctx)
     if 'replay' in shard:
@@ -419,3 +422,8 @@ def finish(r, tier, seed):
     return {'helper_calls': {k: v for k, v in r.counters.items() if k.startswith('helper:')},
             'exhaustive': False,
             'exhaustive_subspaces': ['all ordered pairs of the listed value grids (numbers, texts, dates) x 6 operators via overrides']}
+
+
+def plan(tier, seed):
+    # 'mixed': operators and comparisons over the results of functions (vf/mixed.py)
+    return _plan(tier, seed) + [{'mixed': k, 'n': 3 if tier == 'quick' else 60} for k in range(2 if tier == 'quick' else 8)]
